@@ -34,31 +34,42 @@ def isomorphic(col1, adj1, col2, adj2) -> bool:
 
 
 def _search(col, adj, n) -> bool:
-    classes = {}
-    for v, c in enumerate(col):
-        classes.setdefault(c, ([], []))[0 if v < n else 1].append(v)
-    target = None
-    for c, (a, b) in classes.items():
-        if len(a) != len(b):
-            return False
-        if len(a) > 1 and (target is None or len(a) < len(classes[target][0])):
-            target = c
-    if target is None:
-        # discrete: check the induced mapping
-        m = {}
-        for c, (a, b) in classes.items():
-            m[a[0]] = b[0]
-        for v in range(n):
-            if sorted(m[w] for w in adj[v]) != sorted(adj[m[v]]):
-                return False
-        return True
-    a, b = classes[target]
-    v = a[0]
-    fresh = max(col) + 1
-    for w in b:
+    """Individualisation/refinement search, iterative (depth = number of individualised pairs, which reaches the
+    number of atoms for e.g. 1000 identical isolated atoms)."""
+    stack = [(col, None, None)]  # (colouring, iterator over candidate images or None, vertex)
+    while stack:
+        col, cands, v = stack[-1]
+        if cands is None:
+            classes = {}
+            for u, c in enumerate(col):
+                classes.setdefault(c, ([], []))[0 if u < n else 1].append(u)
+            target = None
+            balanced = True
+            for c, (a, b) in classes.items():
+                if len(a) != len(b):
+                    balanced = False
+                    break
+                if len(a) > 1 and (target is None or len(a) < len(classes[target][0])):
+                    target = c
+            if not balanced:
+                stack.pop()
+                continue
+            if target is None:
+                m = {a[0]: b[0] for a, b in classes.values()}
+                if all(sorted(m[w] for w in adj[u]) == sorted(adj[m[u]]) for u in range(n)):
+                    return True
+                stack.pop()
+                continue
+            a, b = classes[target]
+            stack[-1] = (col, iter(b), a[0])
+            continue
+        w = next(cands, None)
+        if w is None:
+            stack.pop()
+            continue
+        fresh = max(col) + 1
         c2 = list(col)
         c2[v] = fresh
         c2[w] = fresh
-        if _search(_refine(c2, adj), adj, n):
-            return True
+        stack.append((_refine(c2, adj), None, None))
     return False
